@@ -41,7 +41,8 @@ class Spec:
 
 def run(chk):
     chk.trust('scipp model: vector algebra, norm, atan2, sqrt, abs, in-place operators, out=, to(dtype/unit, copy=False) aliasing')
-    chk.trust('textbook facts about atan2/cos instantiated per occurrence; positive homogeneity of atan2')
+    chk.textbook('textbook facts about atan2/cos/sqrt/pi instantiated per occurrence; positive homogeneity of atan2',
+                 ['atan2_range', 'atan2_first_quadrant', 'atan2_upper', 'atan2_lower', 'atan2_pos_x_axis', 'atan2_neg_x_axis', 'atan2_pos_y_axis', 'atan2_cos', 'atan2_sin', 'atan2_cos_two', 'sqrt_facts', 'pi_bounds', 'cos_inj_on', 'cos_bounds', 'atan2_homogeneous'])
     chk.trust('z3 / cvc5 (nonlinear real arithmetic)')
     chk.assume('floats are reals; float32 wavelength affects only dtype obligations')
     chk.assume('contract precondition: incident beam not parallel to gravity, gravity non-zero, raised beam non-zero')
@@ -477,7 +478,7 @@ def lemmas(chk):
     chk.prove(f'{P}/raised-beam-longer', hyp, n2r > n2, timeout=60)
     chk.prove(f'{P}/cosine-decreases', hyp + [n2r > n2], c1 < c0, timeout=60)
     mono = z3.Implies(z3.And(t0 >= 0, t0 <= PI, t1 >= 0, t1 <= PI, COS(t1) < COS(t0)), t1 > t0)   # cos strictly decreasing on [0, pi]
-    chk.trust('cos is strictly decreasing on [0, pi] (instantiated)')
+    chk.textbook('cos is strictly decreasing on [0, pi] (instantiated)', ['cos_strict_anti_on'])
     chk.prove(f'{P}/angle-larger-above-horizontal-beam', [t0 >= 0, t0 <= PI, t1 >= 0, t1 <= PI, COS(t0) == c0, COS(t1) == c1, c1 < c0, mono], t1 > t0)
     chk.assume('continuity inside the band 0 < |g.b1| <= 1e-10|g|: the optimised path deviates from the documented construction by '
                'at most the angle between b1 and e_z (<= 1e-10 rad); needs the spherical triangle inequality -- not proved')
